@@ -45,7 +45,7 @@ PROBES = ["resize_during_cell_size_query", "toggle_then_get_at_unchanged_size", 
           "fixed_ratio_survives_resize", "memo_body_once", "terminal_size_cached_recomputed",
           "concurrent_first_calls", "task_waited_on_memo_lock", "auto_ratio_unsupported",
           "resize_back_to_earlier_size", "enable_queries_races_with_first_call",
-          "swap_toggle_races_with_cell_size_calls"]
+          "swap_toggle_races_with_cell_size_calls", "memoized_falsy_result"]
 COMPONENTS = {
     "real": ["term_image.utils.get_cell_size / cached / terminal_size_cached / "
              "get_fg_bg_colors / get_terminal_name_version", "term_image.enable/disable_queries, "
@@ -90,6 +90,16 @@ def run_history(ch, ctx, fault):
         def memo(a, b=0):
             calls["memo"][(a, b)] = calls["memo"].get((a, b), 0) + 1
             return (a, b, vt.cols, vt.rows, calls["memo"][(a, b)])
+
+        FALSY = (None, 0, False, (), "")
+
+        @utils.cached
+        def memo_falsy(a):
+            # "unknown" / "not supported" are results too: a memoized None stays memoized
+            calls["falsy"][a] = calls["falsy"].get(a, 0) + 1
+            return FALSY[a]
+
+        calls["falsy"] = {}
 
         @utils.terminal_size_cached
         def tsc():
@@ -298,6 +308,14 @@ def run_history(ch, ctx, fault):
                 check(got == exp, "name_version_differs_from_fresh_computation",
                       {"got": got, "expected": exp, "queries": model.queries}, "namever")
                 note_get("namever")
+            elif op == "memo" and ch.bool("falsy", 0.35):
+                a = ch.int("fa", 0, len(FALSY) - 1)
+                got = memo_falsy(a)
+                desc = "memo_falsy(%d) -> %r (body ran %d time(s))" % (a, got, calls["falsy"][a])
+                ctx.probe("memoized_falsy_result")
+                check(got == FALSY[a] and type(got) is type(FALSY[a]) and calls["falsy"][a] == 1,
+                      "memoized_function_recomputed",
+                      {"args": a, "got": got, "body_runs": calls["falsy"][a]}, "memo")
             elif op == "memo":
                 a, b = ch.int("ma", 0, 2), ch.int("mb", 0, 1)
                 got = memo(a, b=b) if b else memo(a)
@@ -327,6 +345,8 @@ def run_history(ch, ctx, fault):
                 desc = "tsc() -> %r" % (got,)
             else:
                 memo._invalidate_cache()
+                memo_falsy._invalidate_cache()
+                calls["falsy"].clear()
                 tsc._invalidate_terminal_size_cache()
                 memo_expect.clear()
                 tsc_state.update(size=None, value=None)
@@ -359,6 +379,8 @@ def run_concurrent(ch, ctx, fault):
         calls = {}
         inside = [0]
 
+        falsy_results = ch.bool("falsy_results", 0.3)
+
         @utils.cached
         def memo(a):
             calls[a] = calls.get(a, 0) + 1
@@ -366,6 +388,8 @@ def run_concurrent(ch, ctx, fault):
             k.yield_point("memo-body")
             k.yield_point("memo-body2")
             inside[0] -= 1
+            if falsy_results:
+                return (None, 0)[a]
             return ("value", a, calls[a])
 
         tsc_calls = [0]
